@@ -114,9 +114,13 @@ def judge(case: dict) -> dict:
         for d, name, text, is_pkg_module in virt:
             dd = str(PurePosixPath(d).parent) if is_pkg_module else d
             by_path.setdefault(f"{dd}/{name.lstrip('_')}.sdsstub", set()).add(text)
+        # open finding: a module named like a declaration re-exported by name is taken for that re-export and written to its path
+        from_stmts = [st_ for v in pkg.get("inits", {}).values() for st_ in v if st_[0] == "from"]
+        confusable_files = {(st_[3] or st_[2]).lstrip("_") + ".sdsstub" for st_ in from_stmts if st_[2] in module_names}
         for path, texts in by_path.items():
             if len(texts) > 1:
-                discs.append(Discrepancy.make("two_texts_one_path", path, f"{len(texts)} different stub texts are written to one path", []))
+                ctags = [structgen.CONFUSABLE] if PurePosixPath(path).name in confusable_files else []
+                discs.append(Discrepancy.make("two_texts_one_path", path, f"{len(texts)} different stub texts are written to one path", ctags))
         own = [rel for rel, sf in ss.files.items() if sf.python_module.split(".")[0] == pkg["name"]]
         if len(by_path) != len(own) + len([e for e in ss.errors if e.startswith(pkg["name"])]):
             discs.append(Discrepancy.make("file_count_differs", pkg["name"], f"{len(by_path)} distinct virtual stub files but {len(own)} files of the package on disk", []))
